@@ -231,6 +231,16 @@ func c43(c *Ctx) {
 			}
 		}
 	})
+	c.Ob("every-resource-processed", "R3", "the walks over the resources of an update, over the known resources of the type (deletion check) and over the channels of a resource are never left early: every resource in a response is processed and every watched resource is checked", 3, func() {
+		hf := c.fn(xdsc, au+".handleADSResourceUpdate")
+		n := c.NoEarlyExit(hf, ParamV("updates"), "every-update-entry-processed")
+		n += c.NoEarlyExit(hf, LookupOf(FieldLoad(c.field(xdsc, au, "resources")), AnyV), "every-known-resource-checked-for-deletion")
+		c.Expect(n == 2, nil, hf, "two-walks", "expected the walk over the update and the walk over the known resources")
+		rf := c.fn(xdsc, au+".handleRevertingToPrimaryOnUpdate")
+		m := c.NoEarlyExit(rf, FieldLoad(c.field(xdsc, "resourceState", "xdsChannelConfigs")), "every-channel-of-a-resource-checked")
+		m += c.NoEarlyExit(rf, FieldLoad(c.field(xdsc, au, "resources")), "every-resource-type-checked")
+		c.Expect(m >= 2, nil, rf, "release-walks", "expected the release walks over resources and their channels")
+	})
 	c.Ob("stream-and-timeout-errors", "R2", "stream failure: ResourceError iff nothing cached, AmbientError otherwise; watch timeout: cache cleared and status NotExist before the ResourceError", 5, func() {
 		p := "propagateConnectivityErrorToAllWatchers"
 		pf := c.fn(xdsc, au+"."+p)
